@@ -6,7 +6,7 @@ from lib import common as C
 
 def check(prop, tier, seed):
     out = C.Outcome(prop)
-    bins = C.build_harness("default")
+    bins = C.build_harness("default", ["varint"])
     hb = bins["varint"]
     work = os.path.join(C.WORK, "varint")
     os.makedirs(work, exist_ok=True)
